@@ -33,4 +33,39 @@ fn main() {
         ported.push('\n');
     }
     fs::write(&out, ported).unwrap();
+
+    // engine_default.rs with the AArch64 branches switched on and the x86 branches off,
+    // `is_aarch64_feature_detected!` replaced by a settable emulated detection
+    let dsrc_path = "/repo/src/engine/engine_default.rs";
+    println!("cargo:rerun-if-changed={}", dsrc_path);
+    let dout = Path::new(&env::var("OUT_DIR").unwrap()).join("default_arm_port.rs");
+    let dsrc = fs::read_to_string(dsrc_path).unwrap_or_else(|_| "compile_error!(\"engine_default.rs not found\");".into());
+    let mut dported = String::new();
+    let mut skip_macro = false;
+    for line in dsrc.lines() {
+        let t = line.trim();
+        if t == "#[cfg(test)]" {
+            break;
+        }
+        // drop the verif-hooks shadow macro of the x86 detection (not used on AArch64)
+        if t.starts_with("#[cfg(all(feature = \"verif-hooks\"") {
+            skip_macro = true;
+            continue;
+        }
+        if skip_macro {
+            if line.starts_with('}') {
+                skip_macro = false;
+            }
+            continue;
+        }
+        let l = line
+            .replace("#[cfg(any(target_arch = \"x86\", target_arch = \"x86_64\"))]", "#[cfg(any())]")
+            .replace("#[cfg(target_arch = \"aarch64\")]", "#[cfg(all())]")
+            .replace("std::arch::is_aarch64_feature_detected!(\"neon\")", "crate::neon_emu::detected_neon()")
+            .replace("use crate::engine::Neon;", "use crate::neon_port::Neon;")
+            .replace("crate::engine::", "reed_solomon_simd::engine::");
+        dported.push_str(&l);
+        dported.push('\n');
+    }
+    fs::write(&dout, dported).unwrap();
 }
